@@ -1,6 +1,7 @@
 package verifsim
 
 import (
+	"encoding/base64"
 	"crypto/rsa"
 	"encoding/json"
 	"fmt"
@@ -383,6 +384,62 @@ func RunSecScenario(sc *Scenario) (vd *Verdict) {
 				return
 			}
 			r.ev("acl %s %s", op.DS, aclShape(r.acl[op.DS]))
+		case "aclflip":
+			// the admin posts the client's ACL again with one entry turned from allow into deny (or back): same
+			// resources, same actions, same order
+			adm, _, _, _ := r.token("admin")
+			cur := append([]aclEntry(nil), r.acl[op.DS]...)
+			if len(cur) == 0 {
+				continue
+			}
+			k := op.N % len(cur)
+			cur[k].Deny = !cur[k].Deny
+			if err := r.setACL(adm, op.DS, cur); err != nil {
+				fail(viol("C16", "harness", "invalid", "%v", err), i)
+				return
+			}
+			r.Stats["acl_deny_flips"]++
+			r.ev("aclflip %s %s", op.DS, aclShape(cur))
+		case "crossAssertion":
+			// client2 asks for a token with an assertion it signs with its own key, naming itself as issuer and client1 as
+			// subject: whatever the hub answers, it must not hand out a token for client1
+			if !r.clients["client1"] || !r.clients["client2"] {
+				continue
+			}
+			claims := jwt.RegisteredClaims{Issuer: "client2", Subject: "client1", Audience: jwt.ClaimStrings{"node:" + nodeID},
+				ExpiresAt: jwt.NewNumericDate(time.Now().Add(time.Minute)), ID: fmt.Sprintf("x%d", i)}
+			if op.N == 1 {
+				claims.Issuer = "" // subject only, signed with the other client's key
+			}
+			assertion, err := jwt.NewWithClaims(jwt.SigningMethodRS256, claims).SignedString(r.c2Key)
+			if err != nil {
+				continue
+			}
+			code, body := r.formPost("/security/token", url.Values{"grant_type": {"client_credentials"},
+				"client_assertion_type": {"urn:ietf:params:oauth:grant-type:jwt-bearer"}, "client_assertion": {assertion}})
+			r.Stats["cross_subject_assertions"]++
+			if code == 200 {
+				var tr struct {
+					AccessToken string `json:"access_token"`
+				}
+				_ = json.Unmarshal(body, &tr)
+				parts := strings.Split(tr.AccessToken, ".")
+				sub := ""
+				if len(parts) == 3 {
+					if pb, err := base64.RawURLEncoding.DecodeString(parts[1]); err == nil {
+						var cl struct {
+							Sub string `json:"sub"`
+						}
+						_ = json.Unmarshal(pb, &cl)
+						sub = cl.Sub
+					}
+				}
+				if sub != "client2" {
+					fail(viol("C16", "authentication", "token-issued-for-another-subject", "client2 signed a token request naming subject client1 (issuer %q) with its own key; the hub answered 200 with an access token for subject %q: client2 is now served under client1's ACL", claims.Issuer, sub), i)
+					return
+				}
+			}
+			r.ev("crossAssertion -> %d", code/100)
 		case "unregister":
 			// the admin deletes a client registration; tokens that client obtained before stay cryptographically valid
 			adm, _, _, _ := r.token("admin")
